@@ -73,6 +73,10 @@ const (
 	scPlain      = "plain"
 	scCut        = "cut"          // cut, stop the follower, inspect, start a new follower on the same cache
 	scCutRetry   = "cutretry"     // cut and let the follower's own retry loop recover
+	// cut; while no follower request is served the leader takes in more than its size limit, so that
+	// the position the follower stands at is collected; then requests are served again and the
+	// follower's own retry has to cope with a leader that relocates its request to the newest offset
+	scCutCollect = "cutcollect"
 	scSwitch2    = "switch2"      // leader restarts under another id between handshake and meta sync
 	scSwitchLate = "switchlate"   // leader restarts under another id once the follower has caught up
 	scFailover2  = "failover2"    // the source fails over (+CONTINUE <new id>) between the follower's handshake and its data request
@@ -156,7 +160,7 @@ func buildCases(r *harness.Run) []*caseSpec {
 	add := func(c caseSpec) {
 		key := fmt.Sprintf("L=%s/F=%s/%s-%s/%s/%s", c.L, c.F, c.BL, c.BF, c.Proc, c.Scn)
 		switch c.Scn {
-		case scCut, scCutRetry:
+		case scCut, scCutRetry, scCutCollect:
 			key += fmt.Sprintf(":x%d:k%d", c.CutXfer, c.CutK)
 		case scSwitch2, scSwitchLate, scSwitchRdb:
 			if c.SwitchLow {
@@ -198,7 +202,7 @@ func buildCases(r *harness.Run) []*caseSpec {
 		}
 		sizes := []int64{4096, 10000, 1 << 20}
 		c.LogSizeL, c.LogSizeF = sizes[rng.Intn(3)], sizes[rng.Intn(3)]
-		if c.L == "G" {
+		if c.L == "G" || c.Scn == scCutCollect {
 			c.LogSizeL, c.MaxSizeL = 4096, 30000
 		}
 		if strings.HasPrefix(c.L, "B") || strings.HasPrefix(c.F, "B") {
@@ -220,7 +224,7 @@ func buildCases(r *harness.Run) []*caseSpec {
 			c.weight = 5
 		case c.L == "E" || c.L == "R" || c.L == "R0":
 			c.weight = 3
-		case c.Scn == scFailover2 || c.Scn == scFailoverX1 || c.Scn == scFailoverLt || c.Scn == scSwitchRdb || c.Scn == scCutRetry || c.Scn == scSwitch2 || c.Scn == scSwitchLate || c.Scn == scBounce:
+		case c.Scn == scFailover2 || c.Scn == scFailoverX1 || c.Scn == scFailoverLt || c.Scn == scSwitchRdb || c.Scn == scCutRetry || c.Scn == scCutCollect || c.Scn == scSwitch2 || c.Scn == scSwitchLate || c.Scn == scBounce:
 			c.weight = 2
 		case c.F == "O" || c.L == "OL":
 			c.weight = 4
@@ -311,6 +315,9 @@ func buildCases(r *harness.Run) []*caseSpec {
 				if p[1] == "P" {
 					for _, k := range ks {
 						add(caseSpec{L: p[0], F: p[1], BL: cb[0], BF: cb[1], Proc: "same", Scn: scCutRetry, CutXfer: 0, CutK: k, Variant: v})
+					}
+					for _, k := range ks {
+						add(caseSpec{L: p[0], F: p[1], BL: cb[0], BF: cb[1], Proc: "same", Scn: scCutCollect, CutXfer: 0, CutK: k + 1, Variant: v})
 					}
 				}
 			}
@@ -853,6 +860,9 @@ func runCase(r *harness.Run, c *caseSpec, dir string) {
 	// ---- scenario hooks
 	var once sync.Once
 	var hookErr error
+	serveAgain := make(chan struct{}) // cutcollect: closed when transfer requests are served again
+	var serveOnce sync.Once
+	defer serveOnce.Do(func() { close(serveAgain) })
 	var switched atomic.Bool
 	switch c.Scn {
 	case scSwitch2:
@@ -902,6 +912,17 @@ func runCase(r *harness.Run, c *caseSpec, dir string) {
 		}
 	case scCut, scCutRetry:
 		ln.setCut(c.CutXfer, c.CutK)
+	case scCutCollect:
+		ln.setCut(c.CutXfer, c.CutK)
+		// from the cut on no transfer request is served until the leader has collected (handleCut)
+		ln.beforeRPC = func(rec rpcRec) {
+			if fired, _ := ln.cutState(); fired && !rec.Handshake {
+				select {
+				case <-serveAgain:
+				case <-time.After(caseWatchdog):
+				}
+			}
+		}
 	}
 
 	expectTakeover := c.Scn == scPlain && !c.FH.empty() && !c.LH.empty() && c.FH.ID == c.LH.ID && c.FH.LogRight > c.LH.LogRight
@@ -967,6 +988,39 @@ func runCase(r *harness.Run, c *caseSpec, dir string) {
 		// the k-th message was the last one through and the handler has returned
 		cr.r.Seen("cut_points", fmt.Sprintf("x%d:k%d", c.CutXfer, c.CutK))
 		cr.r.Count("cuts_fired", 1)
+		if c.Scn == scCutCollect {
+			before, _ := cr.lch.GetOffsetRange(cr.lch.RunId())
+			for fed := int64(0); fed < 2*c.MaxSizeL+9000; fed += 3000 {
+				if err := cr.lf.append(3000); err != nil {
+					harnessFail("leader append while no follower is served: %v", err)
+					return false
+				}
+			}
+			if g, ok := cr.lch.(interface{ VerifGcNow() }); ok {
+				g.VerifGcNow()
+			}
+			after, _ := cr.lch.GetOffsetRange(cr.lch.RunId())
+			if after > before {
+				cr.r.Count("cuts_followed_by_a_collection_at_the_leader", 1)
+			}
+			cr.note("cut fired; leader took in %d bytes unserved, its left edge moved %d -> %d; follower left to its own retry", 2*c.MaxSizeL+9000, before, after)
+			// requests are served again; once the follower's next transfer request has been answered
+			// (its own retry comes after a 3 s sleep) the source goes on sending
+			serveOnce.Do(func() { close(serveAgain) })
+			_, x0 := ln.counts()
+			waitUntil(8*time.Second, func() bool {
+				_, x := ln.counts()
+				return x > x0 || len(h.done) > 0
+			})
+			for i := 0; i < 3; i++ {
+				time.Sleep(15 * time.Millisecond) // pacing only
+				if err := cr.lf.append(2000); err != nil {
+					harnessFail("leader append after serving again: %v", err)
+					return false
+				}
+			}
+			return true
+		}
 		if c.Scn == scCutRetry {
 			cr.note("cut fired; follower left to its own retry")
 			return true
@@ -1006,7 +1060,7 @@ func runCase(r *harness.Run, c *caseSpec, dir string) {
 			}
 		}
 	} else if !h.ret {
-		wantCut := c.Scn == scCut || c.Scn == scCutRetry
+		wantCut := c.Scn == scCut || c.Scn == scCutRetry || c.Scn == scCutCollect
 		midChecked := false
 		if c.Scn == scSwitch2 || c.Scn == scSwitchRdb || c.Scn == scFailover2 {
 			// the leader restarts inside the handler of the first meta-sync RPC (or in the middle of
@@ -1266,9 +1320,18 @@ func runCase(r *harness.Run, c *caseSpec, dir string) {
 	cr.mu.Lock()
 	r.Count("follower_state_samples", int64(cr.samples))
 	cr.mu.Unlock()
-	if (c.Scn == scCut || c.Scn == scCutRetry) && cutOutcome == "" {
+	if (c.Scn == scCut || c.Scn == scCutRetry || c.Scn == scCutCollect) && cutOutcome == "" {
 		if fired, _ := ln.cutState(); !fired {
 			r.Count("cuts_not_reached", 1)
+		}
+	}
+	if r.Replaying() { // a single case was asked for: show what happened
+		fmt.Printf("NOTE case %s: outcome=%s transfer=%s before=%s after=%s\n", c.Key, outcome, kind, cr.pre.String(), final.String())
+		for _, n := range cr.notes {
+			fmt.Printf("NOTE   %s\n", n)
+		}
+		for _, rp := range rpcs {
+			fmt.Printf("NOTE   rpc#%d handshake=%v req=(%.8s,%d) transfer=%d msgs=%d bytes=%d last_end=%d cut=%v err=%q first=%+v\n", rp.Idx, rp.Handshake, rp.ReqRunID, rp.ReqOffset, rp.Transfer, rp.NMsgs, rp.DataBytes, rp.LastEnd, rp.Cut, rp.Err, rp.Msgs)
 		}
 	}
 	r.Distinct(strings.Join([]string{c.L, c.F, c.BL, c.BF, kind, outcome}, "|"))
